@@ -1,0 +1,82 @@
+//go:build verif
+
+// Contracts for the deductive verification kept in /verif (govc). This file is
+// compiled only with the "verif" build tag and contains no code: every
+// contract lives in a comment block and is read by the verifier together with
+// the real source of this package.
+
+package hashio
+
+/*@
+
+// ---------- C12: a Hasher reports the true length and the digest of everything written to it ----------
+
+pure func algNum(name string) int { name == "md5" ? 1 : (name == "sha1" ? 2 : (name == "sha256" ? 3 : (name == "sha512" ? 4 : 0))) }
+
+func GetHash
+  ensures algNum(name) != 0 ==> result1 == nil && fresh(result0) && result0.stream == "" && algOf(result0) == algNum(name)
+  ensures algNum(name) == 0 ==> result1 != nil && result0 == nil
+
+// object invariant: the counted size is the length of the stream the underlying hash has seen, under the named algorithm
+pure func hasherOK(dh *Hasher) bool reads heap { dh != nil && dh.hash != nil && dh.size == len(dh.hash.stream) && algNum(dh.name) != 0 && algOf(dh.hash) == algNum(dh.name) }
+
+func NewHasher
+  ensures algNum(name) != 0 ==> result1 == nil && fresh(result0) && hasherOK(result0) && result0.hash.stream == "" && result0.name == name && fresh(result0.hash)
+  ensures algNum(name) == 0 ==> result1 != nil && result0 == nil
+
+func (*Hasher).Name
+  requires dh != nil
+  ensures result == dh.name
+
+// every write, of whatever size, extends the stream by exactly the bytes written: any chunking gives the same stream
+func (*Hasher).Write
+  requires hasherOK(dh) && len(dh.hash.stream) + len(p) <= 9223372036854775807
+  ensures hasherOK(dh) && result0 == len(p) && result1 == nil && dh.hash.stream == old(dh.hash.stream) ++ str(p)
+  modifies dh.size, dh.hash.stream
+
+func (*Hasher).Size
+  requires hasherOK(dh)
+  ensures result == len(dh.hash.stream)
+
+func (*Hasher).Sum
+  requires hasherOK(dh)
+  ensures str(result) == str(b) ++ digest(algNum(dh.name), dh.hash.stream)
+
+
+// ---------- C12: the hashing writers and readers forward to the target and to one fresh Hasher per requested name ----------
+
+func NewHasherWriter
+  ensures algNum(hash) != 0 ==> result2 == nil && fresh(result1) && hasherOK(result1) && result1.hash.stream == "" && result1.name == hash
+  ensures algNum(hash) != 0 ==> mwLen(result0) == 2 && mwAt(result0, 0) == target && is(mwAt(result0, 1), *Hasher) && as(mwAt(result0, 1), *Hasher) == result1
+  ensures algNum(hash) == 0 ==> result2 != nil && result0 == nil && result1 == nil
+
+func NewHasherReader
+  ensures algNum(hash) != 0 ==> result2 == nil && fresh(result1) && hasherOK(result1) && result1.hash.stream == "" && result1.name == hash
+  ensures algNum(hash) != 0 ==> teeSrc(result0) == target && is(teeDst(result0), *Hasher) && as(teeDst(result0), *Hasher) == result1
+  ensures algNum(hash) == 0 ==> result2 != nil && result0 == nil && result1 == nil
+
+func NewHasherWriters
+  ensures result2 == nil ==> len(result1) == len(hashes) && mwLen(result0) == len(hashes) + 1 && mwAt(result0, len(hashes)) == target
+  ensures result2 == nil ==> (forall i int :: 0 <= i && i < len(hashes) ==> hasherOK(result1[i]) && result1[i].hash.stream == "" && result1[i].name == hashes[i] && is(mwAt(result0, i), *Hasher) && as(mwAt(result0, i), *Hasher) == result1[i])
+  ensures result2 == nil ==> (forall i int, j int :: 0 <= i && i < j && j < len(hashes) ==> result1[i] != result1[j] && result1[i].hash != result1[j].hash)
+  ensures (exists i int :: 0 <= i && i < len(hashes) && algNum(hashes[i]) == 0) ==> result2 != nil
+  loop 1:
+    invariant -1 <= rangeindex && rangeindex < len(hashes) && ranged() == hashes && len(hashers) == rangeindex + 1 && len(writers) == rangeindex + 1
+    invariant forall i int :: 0 <= i && i <= rangeindex ==> algNum(hashes[i]) != 0 && fresh(hashers[i]) && hasherOK(hashers[i]) && hashers[i].hash.stream == "" && hashers[i].name == hashes[i] && is(writers[i], *Hasher) && as(writers[i], *Hasher) == hashers[i] && fresh(hashers[i].hash) && allocated(hashers[i]) && allocated(hashers[i].hash)
+    invariant forall i int, j int :: 0 <= i && i < j && j <= rangeindex ==> hashers[i] != hashers[j] && hashers[i].hash != hashers[j].hash
+    decreases len(hashes) - rangeindex
+
+func NewHasherReaders
+  ensures result2 == nil ==> len(result1) == len(hashes) && teeSrc(result0) == target && mwLen(teeDst(result0)) == len(hashes)
+  ensures result2 == nil ==> (forall i int :: 0 <= i && i < len(hashes) ==> hasherOK(result1[i]) && result1[i].hash.stream == "" && result1[i].name == hashes[i] && is(mwAt(teeDst(result0), i), *Hasher) && as(mwAt(teeDst(result0), i), *Hasher) == result1[i])
+  ensures result2 == nil ==> (forall i int, j int :: 0 <= i && i < j && j < len(hashes) ==> result1[i] != result1[j] && result1[i].hash != result1[j].hash)
+  ensures (exists i int :: 0 <= i && i < len(hashes) && algNum(hashes[i]) == 0) ==> result2 != nil
+  loop 1:
+    invariant -1 <= rangeindex && rangeindex < len(hashes) && ranged() == hashes && len(hashers) == rangeindex + 1 && len(writers) == rangeindex + 1
+    invariant forall i int :: 0 <= i && i <= rangeindex ==> algNum(hashes[i]) != 0 && fresh(hashers[i]) && hasherOK(hashers[i]) && hashers[i].hash.stream == "" && hashers[i].name == hashes[i] && is(writers[i], *Hasher) && as(writers[i], *Hasher) == hashers[i] && fresh(hashers[i].hash) && allocated(hashers[i]) && allocated(hashers[i].hash)
+    invariant forall i int, j int :: 0 <= i && i < j && j <= rangeindex ==> hashers[i] != hashers[j] && hashers[i].hash != hashers[j].hash
+    decreases len(hashes) - rangeindex
+
+property C12: GetHash, NewHasher, (*Hasher).Name, (*Hasher).Write, (*Hasher).Size, (*Hasher).Sum, NewHasherWriter, NewHasherReader, NewHasherWriters, NewHasherReaders
+
+@*/
